@@ -758,6 +758,9 @@ func cmdDriveFault(args []string) error {
 		bucketQ := func(page string) *histQuery {
 			return &histQuery{kind: "net", host: "static.site.com", url: "https://static.site.com/ab/cd", src: "https://" + page + "/", typ: rules.TypeScript}
 		}
+		// every 8th history: the first queries after the fault are asked while a writer holds the cache's lock (as a query
+		// that is inserting a rule it has just parsed does): a reader waits for the writer, it does not go past the cache
+		lockHeld := hnum%8 == 4 && !bulk && !gated
 		ls := hr.Int63()
 		// every 8th history: the fault is transient - retrievals fail for a while and then work again; nothing that
 		// happened in between may stick
@@ -800,6 +803,9 @@ func cmdDriveFault(args []string) error {
 		}
 		if bucket {
 			kind, faultAt = "close", 1+hr.Intn(hl-1)
+		}
+		if lockHeld {
+			kind, faultAt = "close", hl/2+hr.Intn(hl/4) // late enough for the pool's queries to have been asked before
 		}
 		recoverAt := -1
 		if transient {
@@ -937,10 +943,18 @@ func cmdDriveFault(args []string) error {
 				pv          string
 			}
 			done := make(chan ans, 1)
-			go func() {
+			ask := func() {
 				_, _, g, gn, p := eng.run2(q)
 				done <- ans{g, gn, p}
-			}()
+			}
+			if lockHeld && i >= faultAt && i < faultAt+12 {
+				st.VerifHoldCacheLock(func() {
+					go ask()
+					time.Sleep(20 * time.Millisecond)
+				})
+			} else {
+				go ask()
+			}
 			var got, gotnet []string
 			var pv string
 			select {
